@@ -324,6 +324,14 @@ def gen_spec(rng, n_items=(4, 14), p_dist=0.5, p_transient=0.3, p_vec=0.35, seed
                     inputs = [{"i": j, "via": "var" if items[j]["k"] == "var" else "node"}]
             else:
                 inputs = [pick_ref("real") for _ in range(rng.randint(1, 3))]
+                # triangles: a node listed *before* one of its own ancestors among the inputs
+                # (the order in which inputs are listed must not matter for update sweeps)
+                tri = [i for i, it in enumerate(items) if it["k"] == "calc" and it.get("vk") in ("real", "pos", "unit") and it.get("inputs")
+                       and any("i" in r_ and items[r_["i"]].get("vk") in ("real", "pos", "unit", "count", "binary") and items[r_["i"]]["k"] in ("value", "var", "calc") for r_ in it["inputs"])]
+                if tri and rng.random() < 0.3:
+                    c_i = rng.choice(tri)
+                    anc = rng.choice([r_ for r_ in items[c_i]["inputs"] if "i" in r_ and items[r_["i"]].get("vk") in ("real", "pos", "unit", "count", "binary") and items[r_["i"]]["k"] in ("value", "var", "calc")])
+                    inputs = [{"i": c_i, "via": "var" if items[c_i].get("wrap") and rng.random() < 0.5 else "node"}, dict(anc)] + inputs[:1]
             coef = [round(rng.uniform(-0.7, 0.7), 3) for _ in range(len(inputs) + 1)]
             seeded = False
             if seeded_p and fn in ("lin", "tanh_lin") and rng.random() < seeded_p:
